@@ -87,6 +87,9 @@ def run(spec, R):
     rng = shard_rng(ID, spec['seed'], spec['name'])
     tier = spec['tier']
     atoms = gens.en_atoms(feats=(None, 'X', 'nb', 'dcl', 'b')) + gens.ja_atoms()
+    if spec['kind'] == 'deep':
+        # feature values that are spelled like punctuation categories or contain other legal characters
+        atoms = atoms + [('A', b, ('U', f)) for b in ('S', 'NP') for f in ('conj', 'LRB', 'RRB', 'a=b', 'x,y', 'thr', '*START*')]
     if spec['kind'] == 'repotests':
         from vlib import repotests
         repotests.run_repo_tests(R, ['tests/test_cat.py'], lambda: None)
